@@ -39,7 +39,17 @@ def gen_tree(rng, depth: int, root: bool) -> Tuple[Optional[str], Any]:
         names_pool.append(n)
         return n
 
+    made: List[Tuple[str, Any]] = []
+
     def node(d: int) -> Tuple[str, Any]:
+        # the same subtree again (with sharing on, build() makes it the very same object): a legal, acyclic tree
+        if made and rng.random() < 0.12:
+            return rng.choice(made)
+        n = fresh_node(d)
+        made.append(n)
+        return n
+
+    def fresh_node(d: int) -> Tuple[str, Any]:
         if d <= 0 or rng.random() < 0.55:
             return (name(), rand_text(rng, 14, hostile=hostile))
         width = rng.choice((0, 0, 1, 2, 3, 6))
@@ -53,15 +63,23 @@ def gen_tree(rng, depth: int, root: bool) -> Tuple[Optional[str], Any]:
     return n
 
 
-def build(tree) -> Any:
+def build(tree, share: Optional[dict] = None) -> Any:
+    """The Keyvalues tree for a description.  With `share` (a dict), equal sub-descriptions become ONE object that
+    sits in the tree several times (under one parent or under different ones)."""
     from srctools.keyvalues import Keyvalues
     name, val = tree
+    key = repr(tree)
+    if share is not None and name is not None and key in share:
+        share['__hits__'] = share.get('__hits__', 0) + 1
+        return share[key]
     if isinstance(val, str):
-        return Keyvalues(name, val)
-    kids = [build(c) for c in val]
-    if name is None:
-        return Keyvalues.root(*kids)
-    return Keyvalues(name, kids)
+        kv = Keyvalues(name, val)
+    else:
+        kids = [build(c, share) for c in val]
+        kv = Keyvalues.root(*kids) if name is None else Keyvalues(name, kids)
+    if share is not None and name is not None:
+        share[key] = kv
+    return kv
 
 
 def snapshot(kv) -> Any:
@@ -135,10 +153,15 @@ def classify(tree, diff: Optional[dict], err: Optional[str]) -> str:
     return 'roundtrip-mismatch' if diff is not None else 'parse-rejects-own-output'
 
 
-def check_tree(run, rng, tree, engine: str, case_id: Any) -> None:
+def check_tree(run, rng, tree, engine: str, case_id: Any, share: Optional[bool] = None) -> None:
     from srctools.keyvalues import Keyvalues, KeyValError
-    case = {'id': case_id, 'tree': tree}
-    kv = build(tree)
+    if share is None:
+        share = isinstance(case_id, int) and case_id % 3 == 1
+    case = {'id': case_id, 'tree': tree, 'share': share}
+    memo: Optional[dict] = {} if share else None
+    kv = build(tree, memo)
+    if memo and memo.get('__hits__'):
+        run.count('trees_with_one_object_in_two_places')
     before = snapshot(kv)
     want = before if tree[0] is not None else before
     # --- serialise under one random option set + the default, compare all outputs modulo whitespace
@@ -315,7 +338,8 @@ def main(run, shard=(0, 1)) -> None:
             check_tree(run, sub_rng(run.seed, 'fixed', j), tree, 'fixed', f'fixed{j}')
     probe.report(run)
     probe.check_reached(run)
-    run.require('serialise_calls', 'parse_calls', 'real_file_deliveries', 'roundtrips_after_edit', 'trees_with_escape_char_in_block_name')
+    run.require('serialise_calls', 'parse_calls', 'real_file_deliveries', 'roundtrips_after_edit', 'trees_with_escape_char_in_block_name',
+                'trees_with_one_object_in_two_places')
 
 
 def replay(run, data) -> None:
@@ -325,5 +349,5 @@ def replay(run, data) -> None:
         return (t[0], t[1] if isinstance(t[1], str) else [tup(c) for c in t[1]])
     tree = tup(case['tree'])
     for k in range(6):
-        check_tree(run, sub_rng(run.seed, 'replay', k), tree, 'replay', k)
+        check_tree(run, sub_rng(run.seed, 'replay', k), tree, 'replay', k, share=bool(case.get('share')))
     run.case('pad', True)
